@@ -48,25 +48,34 @@ func verifPop(wm *Watermark) (time.Time, bool) {
 }
 
 // VerifDeliverOne: the trigger goroutine receives one watermark and handles it.
-func (tw *TumblingWindow) VerifDeliverOne() bool {
+func (tw *TumblingWindow) VerifDeliverOne(onReceive func(watermarkNano int64)) bool {
 	t, ok := verifPop(tw.watermark)
 	if ok {
+		if onReceive != nil {
+			onReceive(t.UnixNano())
+		}
 		tw.checkAndTriggerWindows(t)
 	}
 	return ok
 }
 
-func (sw *SlidingWindow) VerifDeliverOne() bool {
+func (sw *SlidingWindow) VerifDeliverOne(onReceive func(watermarkNano int64)) bool {
 	t, ok := verifPop(sw.watermark)
 	if ok {
+		if onReceive != nil {
+			onReceive(t.UnixNano())
+		}
 		sw.checkAndTriggerWindows(t)
 	}
 	return ok
 }
 
-func (sw *SessionWindow) VerifDeliverOne() bool {
+func (sw *SessionWindow) VerifDeliverOne(onReceive func(watermarkNano int64)) bool {
 	t, ok := verifPop(sw.watermark)
 	if ok {
+		if onReceive != nil {
+			onReceive(t.UnixNano())
+		}
 		sw.checkAndTriggerSessions(t)
 	}
 	return ok
